@@ -315,17 +315,6 @@ Definition rules_have_direct_when (sy : system) : bool :=
                                         | None => false
                                         end) (st_facts (l_state (snd kv)))) sy.
 
-(** D59: a stored rule that has a "schedule" member AND a `when`: the indexed state never indexes it
-    (scheduled rules are reached by trigger! only), the linear state matches its `when` like any other. *)
-Definition rules_have_sched_and_when (sy : system) : bool :=
-  existsb (fun kv => existsb (fun f => match jget "rule" (snd f) with
-                                        | Some r => match jget "schedule" r, jget "when" r with
-                                                    | Some _, Some _ => true
-                                                    | _, _ => false
-                                                    end
-                                        | None => false
-                                        end) (st_facts (l_state (snd kv)))) sy.
-
 (** D37: some rule id is used in two locations (the duplicate-id check of
     searchRulesAncestors runs on the index's candidates, before the re-match). *)
 Definition rule_ids_of (l : loc) : list string :=
@@ -466,7 +455,6 @@ Definition kf_of (sy : system) (o : json) : list string :=
      (if existsb has_propvar cps then ["D9"] else []) ++
      (if rules_have_propvar sy then ["D6"] else []) ++
      (if rules_have_direct_when sy then ["D30"] else []) ++
-     (if rules_have_sched_and_when sy then ["D59"] else []) ++
      (if shared_rule_ids sy then ["D37"] else []) ++
      (if event_risky (jnorm (jget_d "event" o)) then ["D7"] else []))%list
   else [].
